@@ -74,7 +74,16 @@ func TestVerifC10PartSet(t *testing.T) {
 			i := r.Intn(total)
 			p := c10ClonePart(ps.GetPart(i))
 			kind := ""
-			switch r.Intn(12) {
+			switch r.Intn(13) {
+			case 12:
+				// the genuine proof of part i with NO bytes (what a wire message without the bytes
+				// field decodes to) or with empty bytes
+				kind = "no-bytes"
+				if r.Bool() {
+					p.Bytes = nil
+				} else {
+					p.Bytes = []byte{}
+				}
 			case 10, 11:
 				// part i's bytes and aunts presented as (index i', total t') with the same
 				// left/right path shape: only the index/total binding can refuse it
